@@ -15,3 +15,4 @@ PROP = dict(
           rc('C19_observer_tsan', 'harness/C19_observer.cpp', None, extra_src=SRC, cxx='g++', san='-fsanitize=thread -fno-omit-frame-pointer',
              flags='-DC19_TSAN -DC19_BIN=\\"C19_observer_tsan\\"', quick=dict(scale=0.4), thorough=dict(scale=4, seeds=4))],
 )
+PROP['rule'] += ' Round-4 extension: histories also copy an observable (copy-construct, assign, notify the copy, destroy the copies) and copy an observer (optionally destroying the observable before the copy): the originals are unaffected and nothing dangles; a thread may draw a run of up to 70000 time stamps before a cross-thread history starts.'
